@@ -273,7 +273,24 @@ def run(tier):
     eflr.late_header_stream(chk, model, bres, rng('C04', 'file-header-late'), 60 if tier == 'quick' else 600)
     # a write refused in the middle of a set, the object corrected, the same DLISFile written again
     from harness import wholefile as wf
+    from harness import filegen
     wf.refused_then_corrected('C04', tier, model, bres, chk, 30, 300)
+    # whole files: every set record of a written file follows the grammar, template and objects agreeing - in
+    # particular sets whose objects differ in what the write derives for them (frames with and without an index in one
+    # FRAME set, in either order)
+    Rw = rng('C04', 'whole-file-sets')
+    specs = []
+    for i in range(50 if tier == 'quick' else 500):
+        plan = None
+        if i % 2 == 0:
+            plan = [Rw.choice([None, 'uniform']) for _ in range(Rw.choice([2, 2, 3]))]
+            if i % 4 == 0:
+                plan[0], plan[-1] = None, 'uniform'
+        specs.append((i, filegen.gen_spec(Rw, n_lf=Rw.choice([1, 1, 2]), frames_plan=plan, small=False, rows=Rw.choice([2, 3, 5]))))
+    for r in wf.execute(specs, model, bres, chk, stream='whole-file-sets'):
+        chk.case('whole-file-sets', nontrivial_key=('wfs', r.index) if r.res['status'] == 'ok' else None, sample=wf.sample_of(r))
+        if r.res['status'] == 'ok' and bres.ok:
+            wf.oracle_readable(r, chk, 'whole-file-sets')
     return finish(chk, bres, THEOREMS,
                   partial_note='The description given to the model is read from the live objects after the write-time '
                                'defaults ran; how user input becomes that state is C05.')
